@@ -27,6 +27,15 @@ namespace vg {
         b.push_back( v >> 8 );
     }
 
+    // a 16 bit UUID may be given in its 128 bit form (Bluetooth base UUID)
+    inline bytes norm_uuid( const bytes& u )
+    {
+        static const std::uint8_t base[ 12 ] = { 0xfb, 0x34, 0x9b, 0x5f, 0x80, 0x00, 0x00, 0x80, 0x00, 0x10, 0x00, 0x00 };
+        if ( u.size() == 16 && std::equal( base, base + 12, u.begin() ) && u[ 14 ] == 0 && u[ 15 ] == 0 )
+            return bytes{ u[ 12 ], u[ 13 ] };
+        return u;
+    }
+
     struct ConnState
     {
         bool                              connected   = false;
@@ -447,7 +456,7 @@ namespace vg {
             std::uint16_t start, end;
             if ( !range_ok( in, out, 0x08, 7, 21, start, end ) )
                 return;
-            const bytes        type( in.begin() + 5, in.end() );
+            const bytes        type = norm_uuid( bytes( in.begin() + 5, in.end() ) );
             std::vector< int > M;
             for ( int ai : in_range( start, end ) )
                 if ( db.attrs[ ai ].type == type )
@@ -554,13 +563,16 @@ namespace vg {
             std::uint16_t start, end;
             if ( !range_ok( in, out, 0x10, 7, 21, start, end ) )
                 return;
-            const bytes type( in.begin() + 5, in.end() );
+            const bytes type = norm_uuid( bytes( in.begin() + 5, in.end() ) );
             if ( type != bytes{ 0x00, 0x28 } )
             {
                 require( is_error( out, 0x10 ), "c02.group-type", "Read By Group Type for a type that is no grouping type / not primary service must be rejected: ", verif::hex( in ),
                     " got ", verif::hex( out ) );
                 return;
             }
+            // the 128 bit form of <<Primary Service>> is hardly ever used by a client; rejecting it is tolerated
+            if ( in.size() == 21 && is_error( out, 0x10 ) )
+                return;
             const auto M = primary_in_range( start, end, nullptr );
             if ( M.empty() )
             {
@@ -1189,8 +1201,9 @@ namespace vg {
         // value can not be sent on this link (encryption) or can not be read
         bool hidden( int c, int chr ) const
         {
+            // no_read_access does not hide a value from notifications (documented way to declare a notify-only value)
             const Chr& ch = db.chrs[ chr ];
-            return ( ch.enc != 0 && con[ c ].sec != 2 ) || !readable( ch );
+            return ch.enc != 0 && con[ c ].sec != 2;
         }
 
         // everything that is not certain to be sendable right now loses its "certain" status when the queue is polled
